@@ -40,7 +40,8 @@ try:
     for i, sec in enumerate(sections):
         a, b = results["snapshot"][i], results["head"][i]
         name = sec.splitlines()[0]
-        norm = lambda s: re.sub(r"\d{4}/\d\d/\d\d \d\d:\d\d:\d\d", "<time>", re.sub(r"/tmp/testsh-[^/]+/(snapshot|head)", "<wt>", s))
+        # (tar warns when a member written a few milliseconds ago looks "in the future")
+        norm = lambda s: re.sub(r"(?m)^tar: .* in the future\n?", "", re.sub(r"\d{4}/\d\d/\d\d \d\d:\d\d:\d\d", "<time>", re.sub(r"/tmp/testsh-[^/]+/(snapshot|head)", "<wt>", s)))
         if a[0] != b[0] or norm(a[1]) != norm(b[1]):
             ndiff += 1
             print(f"DIFFERS section {i+1} {name}: snapshot rc={a[0]} head rc={b[0]}")
